@@ -29,6 +29,9 @@ PLAN = {
     "C13e": ["C13"], "C19e": ["C19", "C16"], "C07e": ["C07", "C10"],
     "C02f": ["C02", "C04"], "C04f": ["C04"], "C08f": ["C08", "C17", "C01"], "C10f": ["C10", "C01"], "C11f": ["C11"], "C12f": ["C12"],
     "C14f": ["C14", "C05"], "C15f": ["C15"], "C16f": ["C16"], "C17f": ["C17"], "C18f": ["C18"], "C20f": ["C20", "C16", "C09"],
+    "C01g": ["C01", "C08", "C15"], "C03g": ["C03", "C08"], "C04g": ["C04", "C06"], "C05g": ["C05", "C06", "C09"], "C06g": ["C06", "C09"],
+    "C07g": ["C07", "C14", "C05"], "C09g": ["C09"], "C13g": ["C13", "C12"], "C14g": ["C14", "C05"], "C16g": ["C16"], "C19g": ["C19"],
+    "C20g": ["C20", "C06"],
     "C14d": ["C14", "C05"], "C08d": ["C08", "C03"], "C20d": ["C20", "C09"], "C16d": ["C16"],
 }
 
